@@ -1096,10 +1096,36 @@ type When struct {
 	desc       string
 	ref        string
 	extensions []*Extension
+
+	// stated on the uses or augment that brought the node in, see ParentContext
+	parentContext bool
+	and           *When
 }
 
 func (y *When) Expression() string {
 	return y.expr
+}
+
+// ParentContext is true for a condition that was stated on a uses or an augment.  It is about
+// the node the uses or the augment target is, the parent of the node that carries it, and not
+// about the node itself (RFC7950 Sec 7.21.5)
+func (y *When) ParentContext() bool {
+	return y.parentContext
+}
+
+// And is another condition that has to hold as well: a node's own condition besides the one of
+// the uses or augment that brought it in
+func (y *When) And() *When {
+	return y.and
+}
+
+// the condition of a uses or augment as carried by one of the nodes brought in, own is the
+// condition that node already has
+func (y *When) inheritedBy(own *When) *When {
+	copy := *y
+	copy.parentContext = true
+	copy.and = own
+	return &copy
 }
 
 type Must struct {
